@@ -1,5 +1,29 @@
-//! Conformance harness for property C14, see /verif/DESIGN.md.
+//! Conformance harness for property C14 (data through pipes and command
+//! substitutions), see /verif/DESIGN.md and spec/Pipe.tla.
+mod e2e;
+
 fn main() {
-    eprintln!("yv-c14: not implemented yet");
-    std::process::exit(2);
+    let args: Vec<String> = std::env::args().collect();
+    if args.len() < 2 {
+        eprintln!("usage: yv-c14 <run|one|consts> ...");
+        std::process::exit(2);
+    }
+    let rest = &args[2..];
+    let code = match args[1].as_str() {
+        "run" => e2e::run(rest),
+        "one" => e2e::one(rest),
+        "consts" => {
+            println!(
+                "{}",
+                serde_json::json!({"PIPE_BUF": yash_env::system::r#virtual::PIPE_BUF,
+                    "PIPE_SIZE": yash_env::system::r#virtual::PIPE_SIZE})
+            );
+            0
+        }
+        other => {
+            eprintln!("unknown subcommand {other}");
+            2
+        }
+    };
+    std::process::exit(code);
 }
